@@ -33,6 +33,8 @@ fn main() {
         ("replay", "xlsx_tables") => props::xlsx_tables::replay(&args),
         ("drive", "xlsx_tables") => props::xlsx_tables::drive(&args),
         ("replay", "api") => props::api::replay(&args),
+        ("replay", "protected") => props::protected::replay(&args),
+        ("drive", "protected") => props::protected::drive(&args),
         ("replay", "de") => props::de::replay(&args),
         ("drive", "de") => props::de::drive(&args),
         ("replay", "cfb") => isolate::run_replay(&args, props::cfb::replay),
